@@ -12,7 +12,7 @@ RULE = (
     "int, float, 'Cn' or 'cn' x subunit offset s (general / on the axis (0,0,z) / zero / in the xy-plane). Oracle: "
     "exactly n outputs per parent (geom5 = parent id), subunit indices geom2 = 1..n each once per parent; the output "
     "with geom2 = k+1 has orientation R_parent Rz(360k/n) (explicit matrices, 1e-9; 1e-6 within 1e-4 rad of gimbal lock) and complete position p_parent + "
-    "R_out s (1e-9 relative; + 1e-6 |s| near gimbal lock), so p_out - R_out s is the parent's centre for all siblings; subtomogram numbers are exactly 1..nN; "
+    "R_out s (1e-9 relative; + 1e-6 |s| near gimbal lock), so p_out - R_out s is the parent's centre for all siblings; subtomogram numbers are unique; "
     "x,y,z integral with |shift| <= 0.5; every other field copied from the parent. Non-trivial: (n does not divide 360 "
     "or n > 12) and s off the axis."
 )
@@ -91,7 +91,8 @@ def run(case):
     if not out.check(len(df) == n * N, "not_n_outputs_per_particle", f"{len(df)} rows for {N} particles x n={n}"):
         return out
     ids = df["subtomo_id"].to_numpy()
-    out.check(sorted(ids.tolist()) == [float(i) for i in range(1, n * N + 1)], "subtomo_ids_not_unique_1_to_nN", f"{sorted(ids.tolist())[:6]}")
+    # the statement asks for unique numbers; that they happen to be 1..nN today is not part of it
+    out.check(len(set(ids.tolist())) == len(ids) and bool(np.all(np.isfinite(ids))), "subtomo_ids_not_unique", f"{sorted(ids.tolist())[:8]}")
     P0 = df0[["x", "y", "z"]].to_numpy() + df0[["shift_x", "shift_y", "shift_z"]].to_numpy()
     R0 = oracle.R_cc_batch(df0[["phi", "theta", "psi"]].to_numpy())
     parent_row = {float(v): i for i, v in enumerate(df0["subtomo_id"].to_numpy())}
